@@ -249,8 +249,37 @@ HOPS = {"observe_on", "delay", "delay_with_mapper", "debounce", "throttle_first"
         "delay_subscription", "timeout"}
 
 
+def first_final_state_wins(wf) -> bool:
+    """ComponentState.finish leaves an existing final state alone (the obligation of R12, decided here without recording it): on the
+    side of a test 'self.controllerState in [FINISHED, FAILED, SHUTDOWN]' where the component is final, nothing assigns
+    controllerState and nothing subscribes to notifyPostMortem."""
+    fn = wf.func("ComponentState.finish")
+    cfg = CFG(fn)
+    FINALS = {"FINISHED_STATE", "FAILED_STATE", "SHUTDOWN_STATE"}
+    tests = []
+    for n in cfg.nodes:
+        if n.kind != "test" or n.ast is None:
+            continue
+        cp = match.compare_parts(n.ast)
+        if cp and dotted(cp[0]) == "self.controllerState" and isinstance(cp[1], (ast.In, ast.NotIn)) and isinstance(cp[2], (ast.List, ast.Tuple, ast.Set)) \
+                and {(dotted(e) or "").split(".")[-1] for e in cp[2].elts} == FINALS:
+            tests.append((n, "T" if isinstance(cp[1], ast.In) else "F"))
+    if not tests:
+        return False
+    writers = [n for n in cfg.nodes if n.kind == "stmt" and n.ast is not None and (
+        (isinstance(n.ast, ast.Assign) and any(dotted(t) == "self.controllerState" for t in n.ast.targets))
+        or any(last_attr(c) == "subscribe" for c in own_calls(n.ast)))]
+    for (t, lab) in tests:
+        r = cfg.reach([m for (m, l2) in t.succ if l2 == lab])
+        if any(w.id in r for w in writers):
+            return False
+    # and every writer is behind such a test
+    return all(match.only_via_edges(cfg, w, [(t, match.other(lab)) for (t, lab) in tests]) for w in writers)
+
+
 def check_veto_at_delivery(ctx, ctl) -> None:
     """R10: typestate of the operator list of the postMortemCheck subscriptions: [.. hop ..]* veto [no hop]*"""
+    FIRST_WINS = first_final_state_wins(ctx.repo.module(WORKFLOW))
     rule = "C02.R10-stop-veto-at-delivery"
     pm = ctl.func("Controller.postMortemCheck")
 
@@ -305,11 +334,16 @@ def check_veto_at_delivery(ctx, ctl) -> None:
                 ops.extend(pc.args)
             vetoes = [i for i, o in enumerate(ops) if is_veto(o)]
             hops_after = [o for i, o in enumerate(ops) if vetoes and i > vetoes[-1] and last_attr(o) in HOPS] if vetoes else []
-            ok = self_guarded or (bool(vetoes) and not hops_after)
+            at_delivery = self_guarded or (bool(vetoes) and not hops_after)
+            # a notification that is delivered late can only do harm by giving the stopped component another final state; when
+            # finish() leaves an existing final state alone (R12) the late delivery is harmless for this property
+            ok = at_delivery or FIRST_WINS
             ctx.ob(rule, c, ok,
                    ("postMortemCheck refuses components whose finish() was called" if self_guarded else
                     "finishCalled is tested after the notification has reached the controller's scheduler (operators: %s)"
-                    % ", ".join(last_attr(o) or "?" for o in ops)) if ok else
+                    % ", ".join(last_attr(o) or "?" for o in ops) if at_delivery else
+                    "a notification queued before the stop can still reach postMortemCheck, but ComponentState.finish keeps the first final "
+                    "state: the stopped component cannot be given another one") if ok else
                    ("the POSTMORTEM notification is %s: a notification emitted just before _stopComponents() stops the component (natural, "
                     "recoverable exit while another component fails the stage) waits in the controller pool, is delivered after "
                     "finish(SHUTDOWN) and finishedCheck, and postMortemCheck then calls finish(FAILED): the component changes state after "
